@@ -255,23 +255,28 @@ func checkC16(rd *RunData) []Violation {
 	// (it joined the flight, or it hit the freshly stored entry), so Hits() is
 	// bounded from both sides there and exact on a plain cache.
 	gets, hits, maybe := 0, 0, 0
-	// flight of a loaded value = the leader's whole Get call (it outlives the
-	// loader invocation: the leader still has to deregister the flight)
-	type flight struct {
-		leader   int
-		inv, ret uint64
-	}
-	fl := map[int64]flight{}
-	for _, l := range rd.Loader {
-		for _, r := range rd.Recs {
-			if r.Op.Kind == "get" && r.Client >= 0 && rd.ClientTask[r.Client+1] == l.Task && r.Inv < l.Start && (r.Open || r.Ret > l.Start) {
-				ret := r.Ret
-				if r.Open {
-					ret = ^uint64(0)
-				}
-				fl[l.Val] = flight{r.Client, r.Inv, ret}
+	// when did the write that produced each value complete? A Get that returns a
+	// value whose write (Set, or load-and-store including the leader's whole Get)
+	// overlaps the Get may have missed first and then found / joined it: it is
+	// counted as a hit or as a miss, both are right. A Get that returns a value
+	// whose write had completed before the Get was invoked is a hit.
+	wret := map[int64]uint64{}
+	for _, r := range rd.Recs {
+		if r.Op.Kind == "set" {
+			wret[r.Val] = r.Ret
+			if r.Open {
+				wret[r.Val] = ^uint64(0)
 			}
 		}
+	}
+	for _, l := range rd.Loader {
+		end := ^uint64(0)
+		for _, r := range rd.Recs {
+			if r.Op.Kind == "get" && r.Client >= 0 && rd.ClientTask[r.Client+1] == l.Task && r.Inv < l.Start && !r.Open && r.Ret > l.Start {
+				end = r.Ret // the flight stays joinable until the leader's Get has returned
+			}
+		}
+		wret[l.Val] = end
 	}
 	for _, r := range rd.Recs {
 		if r.Op.Kind == "get" && r.Client >= 0 {
@@ -279,16 +284,11 @@ func checkC16(rd *RunData) []Violation {
 			if !r.Ok {
 				continue
 			}
-			if f, ok := fl[r.Val]; ok {
-				if f.leader == r.Client && f.inv == r.Inv {
-					continue // the leader: a miss
-				}
-				if r.Inv < f.ret && r.Ret > f.inv {
-					maybe++ // joined the flight (miss) or hit the freshly stored entry
-					continue
-				}
+			if w, ok := wret[r.Val]; ok && w < r.Inv {
+				hits++
+			} else {
+				maybe++
 			}
-			hits++
 		}
 	}
 	for _, r := range rd.Recs {
